@@ -126,7 +126,7 @@ def check_run(P: str, circuit, cfg: SimConfig, reps: int, ctx, max_leaves: int,
         ctx.probe("tree-too-large")
         return 0
     tol = cfg.tol()
-    _count_draws(leaves, stats)
+    _count_draws(leaves, stats, ctx)
     w_sim: Dict[Tuple, float] = {}
     total = 0.0
     for w, result, _trace in leaves:
@@ -150,7 +150,15 @@ def check_run(P: str, circuit, cfg: SimConfig, reps: int, ctx, max_leaves: int,
     return n
 
 
-def _count_draws(leaves, stats) -> None:
+def _count_draws(leaves, stats, ctx=None) -> None:
+    if ctx is not None:
+        n = {"choice": 0, "randint": 0, "uniform<cum": 0}
+        for _w, _res, trace in leaves:
+            for kind, _p, _o in trace:
+                n[kind] = n.get(kind, 0) + 1
+        for k, v in n.items():
+            if v:
+                ctx.probe("scripted-draws:" + k.replace("<cum", ""), v)
     if stats is None:
         return
     for _w, _res, trace in leaves:
@@ -267,7 +275,7 @@ def check_simulate(P: str, circuit, cfg: SimConfig, ctx, max_leaves: int, qubit_
         ctx.probe("tree-too-large")
         return 0
     n = len(leaves)
-    _count_draws(leaves, stats)
+    _count_draws(leaves, stats, ctx)
     # boundary draw (buggify site `boundary-u`): a uniform draw so close to 1 that, after rounding, no
     # Kraus branch is selected.  The documented behaviour is to fall back to the most likely branch, so
     # the leaf must still be a normalised state that one of the regular branches also produces.
